@@ -181,6 +181,20 @@ pub fn case(sink: &mut Sink, r: &mut Rng, v: &Value, class: &str) {
             ("JsonPretty::from_slice", JsonPretty::from_slice::<Value>(&bytes).ok()),
             ("JsonPretty::from_reader", JsonPretty::from_reader::<_, Value>(std::io::Cursor::new(bytes.clone())).ok()),
         ];
+        struct Portions(Vec<u8>, usize, usize);
+        impl std::io::Read for Portions {
+            fn read(&mut self, buf: &mut [u8]) -> std::io::Result<usize> {
+                let n = self.2.min(buf.len()).min(self.0.len() - self.1);
+                buf[..n].copy_from_slice(&self.0[self.1..self.1 + n]);
+                self.1 += n;
+                Ok(n)
+            }
+        }
+        let mut readers = readers;
+        for per_call in [1usize, 2, 3, 7] {
+            readers.push(("Json::from_reader (a source that hands out a few bytes per call)", Json::from_reader::<_, Value>(Portions(bytes.clone(), 0, per_call)).ok()));
+        }
+        readers.push(("JsonPretty::from_reader (a source that hands out one byte per call)", JsonPretty::from_reader::<_, Value>(Portions(bytes.clone(), 0, 1)).ok()));
         for (name, back) in readers {
             sink.oracle(back.as_ref() == Some(v), &format!("canonical text read with {} is not the value that was encoded", name), &replay);
         }
@@ -238,6 +252,15 @@ pub fn run(cfg: &Cfg) {
     }
     let mut sink = Sink::new(&cfg.out);
     let mut r = Rng::new(cfg.seed);
+    // documents larger than the blocks a reader is read in (4, 8, 16, 64 KiB), filled with characters of two,
+    // three and four bytes at every alignment: a block boundary falls inside a character
+    for unit in ["\u{e9}", "\u{65e5}", "\u{1F600}"] {
+        for lead in 0..4usize {
+            let body: String = std::iter::repeat(unit).take(70_000 / unit.len()).collect();
+            let v = serde_json::json!({ "k": format!("{}{}", "x".repeat(lead), body), format!("{}{}", "y".repeat(lead), unit.repeat(3000)): 1 });
+            case(&mut sink, &mut r, &v, "larger-than-a-block");
+        }
+    }
     // corpus
     let corpus = [
         r#"{"o":{"a":[1,2,3],"s":"string","n":123,"t":true,"f":false,"0":null}}"#,
